@@ -1,7 +1,7 @@
 import Bptk.Core.C16
 /-! Line-protocol driver for the C16 instance-isolation model:  `lake env lean --run Drive/C16.lean < lines`
 
-`cfg <0|1> <0|1> <0|1> <0|1>`  instancesShareNothing restoreOnlyAddressed freshObjects sharedIsScenarioDicts
+`cfg <0|1>×5`               instancesShareNothing restoreOnlyAddressed freshObjects sharedIsScenarioDicts sharedIsHandlerDefaults
 `fac <settings>`            the factory's output for the following lines: the scenario-level settings every product starts with
 `run <k> <ad> <ops>`        k initial instances, ad = 1: external state adapter; ops: comma list of `<id><code>[<settings>]` (or `-`);
                             codes: b s (begin-session / run-step, optional settings) r e k x t c (create) R (/run, optional settings)
@@ -25,7 +25,9 @@ def parseOp (s : String) : Option (Nat × Req) :=
   match ds.toNat?, rest with
   | some i, code :: args =>
     let a := String.ofList args
-    if code == 'b' then (parseStore a).map fun st => (i, .beginSession st)
+    if code == 'b' && a.isEmpty then some (i, .beginOmit)          -- begin-session WITHOUT a `settings` key
+    else if code == 'B' && a.isEmpty then some (i, .beginSession [])    -- `settings` key present and empty
+    else if code == 'b' then (parseStore a).map fun st => (i, .beginSession st)
     else if code == 's' then (parseStore a).map fun st => (i, .runStep st)
     else if code == 'R' then (parseStore a).map fun st => (i, .run st)
     else if !a.isEmpty then none
@@ -65,8 +67,9 @@ def bit (s : String) : Bool := s == "1" || s == "0"
 def stepLine (cf : Cfg × Obj) (line : String) : (Cfg × Obj) × String :=
   let c := cf.1
   match line.trimAscii.toString.splitOn " " with
-  | ["cfg", v, w, f, k] =>
-      if bit v && bit w && bit f && bit k then ((⟨v == "1", w == "1", f == "1", k == "1"⟩, cf.2), "ok") else (cf, "bad-op")
+  | ["cfg", v, w, f, k, hd] =>
+      if bit v && bit w && bit f && bit k && bit hd then ((⟨v == "1", w == "1", f == "1", k == "1", hd == "1"⟩, cf.2), "ok")
+      else (cf, "bad-op")
   | ["fac", st] =>
       match parseStore (if st == "-" then "" else st) with
       | some scn => ((c, { scn := scn, mod := [], sess := none }), "ok")
@@ -88,4 +91,4 @@ partial def loop (h : IO.FS.Stream) (c : Cfg × Obj) : IO Unit := do
   IO.println out
   loop h c'
 
-def main : IO Unit := do loop (← IO.getStdin) (⟨true, true, true, false⟩, Obj.fresh)
+def main : IO Unit := do loop (← IO.getStdin) (⟨true, true, true, false, false⟩, Obj.fresh)
